@@ -904,7 +904,7 @@ def miri_native():
     return os.path.join(VERIF, "target", tag + "-native", "debug", "mirithreads")
 
 
-def miri_run(base, nw, table, seed_lo, seed_hi, rate, idx=None, seq=False, rounds=1):
+def miri_run(base, nw, table, seed_lo, seed_hi, rate, idx=None, seq=False, rounds=1, timeout=None, warmup=None):
     """run the thread workload under Miri for scheduler seeds [seed_lo, seed_hi); returns (rc, output).
     Each seed is a fresh interpreter (a cold process); the seed also selects which of the `nw` workloads runs."""
     bdir, mpath, tag = miri_dirs()
@@ -921,7 +921,12 @@ def miri_run(base, nw, table, seed_lo, seed_hi, rate, idx=None, seq=False, round
         cmd.append(str(idx))
         cmd.append("seq" if seq else "par")
         cmd.append(str(rounds))
-    p = subprocess.run(cmd, env=env, cwd=bdir, stdout=subprocess.PIPE, stderr=subprocess.STDOUT, text=True)
+        if warmup:
+            cmd.append(str(warmup))
+    try:
+        p = subprocess.run(cmd, env=env, cwd=bdir, stdout=subprocess.PIPE, stderr=subprocess.STDOUT, text=True, timeout=timeout, start_new_session=True)
+    except subprocess.TimeoutExpired as e:
+        return 124, (e.stdout or b"").decode(errors="replace") if isinstance(e.stdout, bytes) else (e.stdout or "")
     return p.returncode, p.stdout
 
 
@@ -939,7 +944,8 @@ def classify_miri(out):
     return "abnormal exit"
 
 
-NW = 74 + 31   # 2 x 37 first-call workloads + 31 "hammer" workloads
+NW_BASE = 74 + 31
+NW = NW_BASE + 31   # 2 x 37 first-call workloads + 31 "hammer" workloads + 31 "wrap" workloads (hammer after 65526 constructions)
 
 
 def be_dirs():
@@ -1157,23 +1163,36 @@ def miri_jobs(tier, sd):
     reps = 1 if tier == "quick" else 3
     for ri, rate in enumerate(rates):
         for rep in range(reps):
-            for w in range(NW):
+            for w in range(NW_BASE):
                 jobs.append((w, lo + (ri * reps + rep) * 1009 + w, rate))
     long_w = [w for w in range(2 * MIRI_NOPS) if w % MIRI_NOPS >= MIRI_LONG_FROM]
     extra = [("0.01", 1), ("0.3", 2)] if tier == "quick" else [("0.02", 1), ("0.05", 2), ("0.2", 3), ("0.3", 4), ("0.5", 5), ("0.7", 6)]
     for rate, k in extra:
         for w in long_w:
+            if tier == "quick" and w >= MIRI_NOPS and k == 1:
+                continue  # the six-thread bulk workloads: two schedules in quick
             jobs.append((w, lo + 50000 + k * 1009 + w, rate))
     # the cheap "hammer" workloads (short cipher / BLAKE calls repeated by three threads) under more schedules: a shared value
     # that is written with atomics is no data race for the interpreter - only a schedule that mixes two writers shows it
     cheap = [2 * MIRI_NOPS + k for k in (5, 7, 8, 10, 15, 19, 20, 21, 22, 23, 24, 26, 30)]
     hrates = [("0.03", 11), ("0.3", 12), ("0.5", 13)] if tier == "quick" else [("0.02", 11), ("0.05", 12), ("0.2", 13), ("0.3", 14), ("0.5", 15), ("0.7", 16), ("0.9", 17), ("0.15", 18)]
     hrounds = 5 if tier == "quick" else 10
-    jobs = [(w, s_, rate, 1) for (w, s_, rate) in jobs]
+    jobs = [(w, s_, rate, 1, None) for (w, s_, rate) in jobs]
     for rate, k in hrates:
         for w in cheap:
-            jobs.append((w, lo + 50000 + k * 1009 + w, rate, hrounds))
-    jobs.sort(key=lambda j: -miri_cost_hint(j[0]) * (1 + j[3]) / 2)  # longest first: a short tail for the pool
+            jobs.append((w, lo + 50000 + k * 1009 + w, rate, hrounds, None))
+    # "wrap" workloads: the hammer after 246 constructions of the type on the main thread (an 8-bit use counter wraps during the
+    # hammer); thorough also after 65526 constructions (a 16-bit counter) for the kinds whose constructor the interpreter runs
+    # 65526 times within about twenty minutes
+    wrap_kinds = (5, 7, 8, 10, 15, 19, 20, 21, 22, 23, 24, 26, 30) if tier == "quick" else tuple(range(31))
+    for k in wrap_kinds:
+        jobs.append((NW_BASE + k, lo + 70000 + k, "0.1", 1, None))
+        if tier != "quick":
+            jobs.append((NW_BASE + k, lo + 71000 + k, "0.4", 1, None))
+    if tier != "quick":
+        for k in WRAP16_KINDS:
+            jobs.append((NW_BASE + k, lo + 72000 + k, "0.2", 1, 65526))
+    jobs.sort(key=lambda j: -(miri_cost_hint(j[0]) * (1 + j[3]) / 2 + (WRAP16_COST.get(j[0] - NW_BASE, 600) if j[4] else 0)))  # longest first: a short tail for the pool
     return jobs
 
 
@@ -1183,7 +1202,15 @@ MIRI_LONG_FROM = 31
 HAMMER_COST = [8, 15, 8, 15, 33, 6, 8, 6, 5, 7, 4, 10, 20, 34, 10, 6, 11, 35, 34, 3, 5, 4, 4, 7, 5, 11, 8, 13, 23, 14, 7]
 
 
+# operation kinds whose constructor runs 65526 times under the interpreter in roughly this many seconds (measured under load)
+WRAP16_COST = {0: 670, 1: 1200, 2: 660, 3: 1100, 4: 440, 5: 530, 6: 1030, 7: 160, 8: 170, 10: 650, 13: 490, 15: 510, 16: 1000, 17: 480, 18: 460, 19: 140, 20: 170,
+               24: 990, 26: 140, 29: 710, 30: 550}
+WRAP16_KINDS = tuple(sorted(WRAP16_COST))
+
+
 def miri_cost_hint(w):
+    if w >= NW_BASE:
+        return HAMMER_COST[(w - NW_BASE) % 31] * 1.3
     if w >= 2 * MIRI_NOPS:
         return HAMMER_COST[(w - 2 * MIRI_NOPS) % 31]
     k = w % MIRI_NOPS
@@ -1203,15 +1230,16 @@ def run_miri_layer(pid, tier, sd, replay_dir, results, violations, known, others
     jobs = miri_jobs(tier, sd)
     t0 = time.time()
     # the first job also builds the interpreter's copy of the program
-    first = miri_run(base, NW, table, jobs[0][1], jobs[0][1] + 1, jobs[0][2], jobs[0][0], rounds=jobs[0][3])
+    # a cheap run first: it builds the interpreter's copy of the program (its result is not used)
+    miri_run(base, NW, table, 1, 2, "0.1", 2 * MIRI_NOPS + 19)
     with ThreadPoolExecutor(max_workers=NCPU) as ex:
-        outs = [first] + list(ex.map(lambda j: miri_run(base, NW, table, j[1], j[1] + 1, j[2], j[0], rounds=j[3]), jobs[1:]))
+        outs = list(ex.map(lambda j: miri_run(base, NW, table, j[1], j[1] + 1, j[2], j[0], rounds=j[3], warmup=j[4]), jobs))
     picked = {}
     per_rate = {}
     failed = []
     orders = set()
     rounds_total = 0
-    for (w, s_, rate, nr), (rc, out) in zip(jobs, outs):
+    for (w, s_, rate, nr, wu), (rc, out) in zip(jobs, outs):
         rounds_total += nr
         m = re.search(r"WORKLOAD (\d+) threads=(\d+) first=(\w+)", out)
         if m:
@@ -1222,14 +1250,14 @@ def run_miri_layer(pid, tier, sd, replay_dir, results, violations, known, others
             for o in mo.group(1).split(" ;; "):
                 orders.add((w, o))
         if rc != 0:
-            failed.append((w, s_, rate, nr, out))
+            failed.append((w, s_, rate, nr, wu, out))
     total = len(jobs)
-    results.append(dict(base_seed=base, workloads=NW, interpreter_runs=total, thread_rounds=rounds_total, runs_per_preemption_rate=per_rate,
+    results.append(dict(base_seed=base, workloads=NW, workloads_run=len(set(j[0] for j in jobs)), interpreter_runs=total, thread_rounds=rounds_total, runs_per_preemption_rate=per_rate,
                         distinct_interleavings=dict(measure="distinct (workload, global completion order of the threads' calls) pairs", count=len(orders)), first_call_kinds_raced=picked,
                         failed_runs=len(failed), wall_s=round(time.time() - t0, 1)))
-    log("[%s] miri: %d interpreter runs (every one of %d workloads, rates %s): %d failed; first-call kinds raced: %s" % (pid, total, NW, per_rate, len(failed), picked))
+    log("[%s] miri: %d interpreter runs (%d of the %d workloads, rates %s): %d failed; first-call kinds raced: %s" % (pid, total, len(set(j[0] for j in jobs)), NW, per_rate, len(failed), picked))
     seen_sig = set()
-    for (w, s_, rate, nr, out1) in failed:
+    for (w, s_, rate, nr, wu, out1) in failed:
         if "WORKLOAD" not in out1 and "error: could not compile" in out1:
             log(out1[-3000:])
             raise HarnessError("the thread workload does not build for the interpreter")
@@ -1237,7 +1265,7 @@ def run_miri_layer(pid, tier, sd, replay_dir, results, violations, known, others
         needs_overlap = None
         if what not in ("data race", "deadlock"):
             # the same threads one after the other in the same interpreter configuration: does the failure need them to overlap?
-            rc2, out2 = miri_run(base, NW, table, s_, s_ + 1, rate, w, seq=True, rounds=nr)
+            rc2, out2 = miri_run(base, NW, table, s_, s_ + 1, rate, w, seq=True, rounds=nr, warmup=wu)
             needs_overlap = rc2 == 0
             if needs_overlap and what.startswith("undefined behaviour"):
                 what = "undefined behaviour only when the threads overlap"
@@ -1248,7 +1276,7 @@ def run_miri_layer(pid, tier, sd, replay_dir, results, violations, known, others
         seen_sig.add(sig)
         tail = "\n".join(l for l in out1.splitlines() if l.strip())
         head = "\n".join(tail.splitlines()[:6])[:700]
-        f = dict(kind="miri", base_seed=base, workloads=NW, workload_index=w, explicit_index=True, miri_seed=s_, preemption_rate=rate, rounds=nr, table=table,
+        f = dict(kind="miri", base_seed=base, workloads=NW, workload_index=w, explicit_index=True, miri_seed=s_, preemption_rate=rate, rounds=nr, warmup=wu, table=table,
                  ops=[plans[w]] if 0 <= w < len(plans) else [], minimised_from=1,
                  violation=dict(properties=props, invariant="T1", signature=sig, at_op=0,
                                 detail="Miri scheduler seed %d, preemption rate %s, workload %d: %s%s\n%s\n...\n%s" % (
@@ -1698,7 +1726,7 @@ def replay(pid, path):
         return 0
     if j.get("kind") == "miri":
         rc, out = miri_run(j["base_seed"], j["workloads"], j["table"], j["miri_seed"], j["miri_seed"] + 1, j["preemption_rate"],
-                           j["workload_index"] if j.get("explicit_index") else None, rounds=j.get("rounds", 1))
+                           j["workload_index"] if j.get("explicit_index") else None, rounds=j.get("rounds", 1), warmup=j.get("warmup"))
         if rc != 0:
             sig = j["violation"]["signature"]
             if pid not in j["violation"]["properties"]:
